@@ -403,6 +403,12 @@ def r8_comparisons(ctx):
         cmps = [x for r in _ret_exprs(f) for x in ast.walk(r) if isinstance(x, ast.Compare)] if f is not None else []
         ok = len(cmps) == 1 and isinstance(cmps[0].ops[0], op) and norm(cmps[0].left) == "left" and norm(cmps[0].comparators[0]) == "right"
         ctx.check(ok, TNUM, f"NumberType.{m}", "strict comparison of (left, right) in that order", detail=[norm(x) for x in cmps])
+        widened = [norm(x)[:80] for r in (_ret_exprs(f) if f is not None else []) for x in _isclose_calls(r)]
+        if widened:
+            ctx.violated(TNUM, f"NumberType.{m}", "a strict comparison is not widened by the equality tolerance", detail=widened,
+                         expected="left " + ("<" if op is ast.Lt else ">") + " right alone: a value on the bound does not satisfy a strict bound")
+        else:
+            ctx.holds(TNUM, f"NumberType.{m}", "a strict comparison is not widened by the equality tolerance")
     for m, op in (("__le__", ast.Lt), ("__ge__", ast.Gt)):
         f = ms.get(m)
         if f is None:
